@@ -295,6 +295,8 @@ def _run_rule(item):
         res["outcome"] = "not_active"
         return res
     fp0, code0 = _module_fp(f), f.__code__
+    attrs0 = copy.deepcopy({k: v for k, v in f.__dict__.items() if k != "__wrapped__"})
+    ann0, defaults0 = dict(f.__annotations__), (f.__defaults__, f.__kwdefaults__)
     reg0 = sum(len(v) for v in TIME_DEPENDENT_FUNCTIONS.values())
     try:
         g = make_vectorizable(f, "numpy")
@@ -308,6 +310,12 @@ def _run_rule(item):
         changed = sorted(k for k in set(fp0) | set(fp1) if fp0.get(k) != fp1.get(k))
         res["violations"].append(dict(key="purity:module_rebinding",
                                       what=f"make_vectorizable({item['rule']}) changed its defining module: names {changed[:5]} were (re)bound"))
+    attrs1 = {k: v for k, v in f.__dict__.items() if k != "__wrapped__"}
+    if attrs1 != attrs0 or dict(f.__annotations__) != ann0 or (f.__defaults__, f.__kwdefaults__) != defaults0:
+        changed = sorted(k for k in set(attrs0) | set(attrs1) if attrs0.get(k) != attrs1.get(k))
+        detail = {k: (attrs0.get(k), attrs1.get(k)) for k in changed}
+        res["violations"].append(dict(key="purity:original_function_attributes",
+                                      what=f"make_vectorizable({item['rule']}) changed attributes of the ORIGINAL function: {str(detail)[:300]}"))
     if g is None:
         return res
     args = [a for a in shadow.rule_args(f) if not (a.endswith("_params") and a[:-7] in params)]
@@ -490,8 +498,15 @@ def _run_history(item):
     d = [datetime.date(2023, 7, 1), datetime.date(2019, 1, 1), datetime.date(2016, 7, 1)][item["k"] % 3]
     params, functions = env.environment(d, fresh=True)
     df = popgen.population(rng, d, n_hh=8, params=params)
-    before, nodes, roots, dag, fn = env.trace(df, params, functions)
-    res = dict(kind="history", date=str(d), rewritten=0, violations=[], nodes=len(nodes))
+    res = dict(kind="history", date=str(d), rewritten=0, violations=[], nodes=0)
+    try:
+        before, nodes, roots, dag, fn = env.trace(df, params, functions)
+    except Exception as e:  # noqa: BLE001
+        # this interpreter has already rewritten rules (other items): a failing plain simulation is the leak itself
+        res["violations"].append(dict(key="history:vectorize_then_setup",
+                                      what=f"after earlier rewrites in this process a fresh environment cannot be simulated: {type(e).__name__}: {str(e)[:150]}"))
+        return res
+    res["nodes"] = len(nodes)
     rules = [t for t in nodes if t in functions and inspect.isfunction(functions[t])]
     for t in rules:
         try:
